@@ -1,10 +1,10 @@
 import Model.Common.Proto
-import Generated.All
 open Btc
 
 /-- line protocol of property C14: see harness/c14.py -/
 def handle : List String → String
-  | "gen" :: ns :: fn :: args => (Gen.dispatchAll ns fn args).getD "bad-op"
+  -- one line per generated module this driver serves, e.g.
+  -- | "gen" :: "VarInt" :: fn :: args => (Gen.VarInt.dispatch fn args).getD "bad-op"
   | _ => "bad-op"
 
 def main : IO Unit := runLoop handle
